@@ -9,6 +9,9 @@ LLSE_NOTE = ('Trusted base: rustc/LLVM up to the emitted IR (the IR is what is c
              'Verdicts hold within the stated structural bounds only; see evidence coverage.bounds / outside_claim.')
 
 CLAIMED = {
+ 'C01': dict(
+    text='Partial claim, bounded symbolic model checking through the whole real pipeline: 21 accepted program templates (sums, differences and comparisons of mixed units, the dimension-polymorphic literals 0 / inf / NaN on either side of +, -, comparisons and conditionals, generic functions with a Dim bound, products, quotients, literal integer and rational powers of units, conversions, where-clauses, struct fields) run in a real session with every magnitude a symbolic double; on every feasible path evaluation must not fail with a unit-incompatibility error nor with anything but the documented value-dependent errors, and the run-time unit of the result must have the dimension the template\'s static type has. The defect named in the property text (computed non-integer exponents) is outside this claim and NOT found; one genuine defect class (polymorphic inf / NaN literals) is a known finding.',
+    design_ref='DESIGN.md §4 C01', technique='symbolic execution of LLVM IR (whole interpreter pipeline) + SMT (z3 QF_FPBV), native replay'),
  'C03': dict(
     text='Bounded symbolic model checking of the compiled arithmetic path (VM Add/Subtract/Multiply/Divide/Power opcodes, unit products, transitive base-unit factors, prefix factors): for each selected (operator, unit, unit) triple over prefixed standard-library units and all doubles a, b the result has exactly the dimension vector that dimensional analysis of the unit definitions gives, NaN propagates, finite operands never yield NaN, signs and the zero shortcuts follow the operands, nothing panics, and the base-unit value for magnitudes 1 agrees (32 ulp) with exact rational arithmetic on the definition trees computed independently by the plan.',
     design_ref='DESIGN.md §4 C03', technique='symbolic execution of LLVM IR + SMT (z3 QF_FPBV) with sound FP abstraction; exact-rational reference'),
